@@ -92,6 +92,9 @@ impl Property for C24 {
             .prop_map(|(msgs, string_ids, pull, schedule)| Case { msgs, string_ids, pull, schedule })
             .boxed()
     }
+    fn on_uncaught_panic(&self, msg: &str) -> Verdict {
+        Verdict::fail(format!("panic:{}", panic_site(msg)), format!("a notification handled inline by the main loop panicked: {msg}"))
+    }
     fn local(&self) {}
     fn check(&self, c: &Case, _: &mut (), obs: &mut Obs) -> Verdict {
         let _ = take_panics();
